@@ -6,7 +6,7 @@ From Coq Require Import List String NArith ZArith Bool.
 From SV Require Import Bin.LE Bin.Struct Bin.StructProofs Bin.RLE Bin.RLEProofs Bin.FindInsert Bin.FindInsertProofs
   Fmt.BspFormatsSpec Fmt.BspFormatsProofs Fmt.BspVisRow Fmt.BspVisRowProofs Fmt.BspTexStrings Fmt.BspTexStringsProofs
   Fmt.BspRecords Fmt.BspRecordsProofs Fmt.VmfText Fmt.BspEntLump Fmt.BspEntLumpProofs Fmt.BspDedup Fmt.BspDedupProofs Fmt.BspFlagSplit Fmt.BspFlagSplitProofs
-  Fmt.BspOverlayRec Fmt.BspOverlayRecProofs Fmt.BspWorklist Fmt.BspWorklistProofs Fmt.BspPhys Fmt.BspPhysProofs.
+  Fmt.BspOverlayRec Fmt.BspOverlayRecProofs Fmt.BspWorklist Fmt.BspWorklistProofs Fmt.BspPhys Fmt.BspPhysProofs Bin.BspDeferred Bin.BspDeferredProofs.
 Import ListNotations.
 
 (** * struct: unpack inverts pack for every format and every fitting record *)
@@ -359,3 +359,16 @@ Theorem c11_physcollide_swapped_header_refuted :
   phys_cfg_ok ([HIndex; HSize; HKvLen; HCount], [HIndex; HSize; HKvLen; HCount], (-1)%Z, (-1)%Z, [SSolids; SKvs], [SSolids; SKvs], true, true) = true /\
   forallb (block_wf (-1)%Z) [phys_block] = true.
 Proof. exact phys_swapped_header_refuted. Qed.
+
+(** * Round 4: DeferredWrites (the offset table of the visibility lump, the lump directory of save()) *)
+(** Slots reserved while the file is written front to back, set later, filled in at the end: if no key is deferred twice,
+    every call succeeds ([drun] = the KeyError / size checks of [set_data]) and every deferred key is set at least once, the
+    resulting file is the file of a two-pass writer - the same calls with every slot holding the value set LAST for its
+    key; every other byte is where the sequential writes put it. *)
+Theorem c11_deferred_writes_two_pass : forall ops s, NoDup (defer_keys ops) -> drun dempty ops = Some s ->
+  (forall k, In k (defer_keys ops) -> last_set ops k <> None) ->
+  dwhole ops = Some (render (final_value ops) ops).
+Proof. exact dw_two_pass. Qed.
+(** A slot that never got its value is an error (ValueError), not a file with zeros in it. *)
+Theorem c11_deferred_unset_slot_is_error : dwhole [DWrite [1%N]; DDefer 0 4; DWrite [2%N]] = None.
+Proof. exact dw_unset_slot_is_error. Qed.
